@@ -56,6 +56,27 @@ for cps in job['strings']:
     out['strings'].append(rec)
 
 
+# accepted values of every Python type and truthiness, in text and attribute position: what a standard parser recovers must be str(value)
+out['values'] = []
+for label, make, where in (
+        ('words default-x', lambda v: XMLWords('a', default_x=v), 'default-x'), ('words relative-y', lambda v: XMLWords('a', relative_y=v), 'relative-y'),
+        ('words font-size', lambda v: XMLWords('a', font_size=v), 'font-size'), ('lyric name', lambda v: XMLLyric(name=v, xsd_check=False), 'name'),
+        ('kind text', lambda v: XMLKind('major', text=v), 'text'), ('measure number', lambda v: XMLMeasure(number=v, xsd_check=False), 'number'),
+        ('duration text', lambda v: XMLDuration(v), None), ('staff text', lambda v: XMLStaff(v), None), ('words text', lambda v: XMLWords(v), None),
+        ('alter text', lambda v: XMLAlter(v), None), ('offset text', lambda v: XMLOffset(v), None)):
+    for v in (0, 0.0, -0.0, '', 1, -1, 1.5, 10, 2.0, 1000000.0, 12345678.0, 1e-5, '0', ' ', 'False', 10 ** 20):
+        try:
+            e = make(v)
+        except Exception:
+            continue                         # not an accepted value for this position
+        try:
+            back = ET.fromstring(e.to_string())
+            got = back.attrib.get(where) if where else (back.text or '')
+            out['values'].append([label, repr(v), got, got == str(v)])
+        except Exception as ex:
+            out['values'].append([label, repr(v), 'EXC:' + type(ex).__name__, False])
+
+
 def scenario(with_calls, seed):
     r = random.Random(seed)
     log = []
